@@ -19,7 +19,7 @@
                  each is appended by exactly the step that emits the return
                  event (lemma lstep_logs_are_returns), erasure = lstep_erase. *)
 From Coq Require Import List ZArith Permutation.
-From LF Require Import Conc Wsd WsdProofs.
+From LF Require Import Conc Wsd WsdProofs WsdTSO.
 Import ListNotations.
 
 (* every returned token was pushed, and no more often than it was pushed: the
@@ -149,6 +149,38 @@ Theorem wsd_safety_core : forall l start progs s u,
 Proof. intros l start progs s u O R. exact (safety_of_inv s u (reachable_inv l start progs s O R)). Qed.
 Print Assumptions wsd_safety_core.
 
+(* ---- the same program on the x86-TSO store-buffer machine (coq/WsdTSO.v) ----
+   [treach true] = the code as written (seq_cst store of bottom in pop_bottom
+   drains the owner's store buffer); any interleaving of thread steps and
+   buffer flushes. *)
+Theorem wsd_tso_exactly_once : forall l start progs y,
+  owner_only progs -> treach true l start progs y ->
+  (forall v, cnt (tsl y) v + cnt (tol y) v <= cnt (tpl y) v) /\
+  (exists rest, Permutation (tpl y) (tsl y ++ tol y ++ rest)) /\
+  (exists later, tokens (nth 0 progs []) = tpl y ++ later) /\
+  (NoDup (tokens (nth 0 progs [])) -> NoDup (tsl y ++ tol y) /\ incl (tsl y ++ tol y) (tpl y)).
+Proof. intros l start progs y O R. exact (tso_exactly_once l start progs y O R). Qed.
+Print Assumptions wsd_tso_exactly_once.
+
+Theorem wsd_tso_no_loss : forall l start progs y,
+  owner_only progs -> treach true l start progs y ->
+  Permutation (tpl y) (tsl y ++ tol y ++ held (vw (tb y)) ++ content (vw (tb y))) /\
+  (mbot (tb y) <= bot (vw (tb y)))%Z /\
+  (buf (tb y) = [] -> mbot (tb y) = bot (vw (tb y)) /\
+                      forall k sl, dat (marrs (tb y) k) sl = dat (arrs (vw (tb y)) k) sl).
+Proof. intros l start progs y O R. exact (tso_no_loss l start progs y O R). Qed.
+Print Assumptions wsd_tso_no_loss.
+
+(* with a release store of bottom in pop_bottom instead of the seq_cst store
+   ([treach false]) a token is returned twice on TSO: this is why the
+   memory-order field of that store is part of the lock-step comparison *)
+Theorem wsd_tso_release_store_refuted :
+  exists l start progs y,
+    owner_only progs /\ NoDup (tokens (nth 0 progs [])) /\ treach false l start progs y /\
+    tpl y = [5; 6]%Z /\ tsl y = [5; 6]%Z /\ tol y = [6]%Z /\ ~ NoDup (tsl y ++ tol y).
+Proof. exact tso_release_store_refuted. Qed.
+Print Assumptions wsd_tso_release_store_refuted.
+
 (* ---- non-vacuity: the hypotheses are met by concrete reachable states ---- *)
 Definition ex_progs := [[OPush 5; OPush 6; OPush 7; OPop; OPop; OPop]; [OSteal]].
 Example ex_owner_only : owner_only ex_progs.
@@ -214,3 +246,10 @@ Example ex_history :
   ireach 1 0 ex_progs x /\ plog x = [5; 6; 7]%Z /\ slog x = [5]%Z /\ olog x = [7; 6]%Z /\
   cur (base x) = 2 /\ content (base x) = [] /\ pc (thr (base x) 0) = Fin.
 Proof. split; [apply ireach_irun; constructor | vm_compute; auto 10]. Qed.
+
+(* TSO: a state in which the owner's buffer is not empty and memory lags
+   behind the view (two pushes buffered, nothing flushed) *)
+Example ex_tso_buffered :
+  let y := trun true (tinit 2 0 ex_progs) [Some 0;Some 0;Some 0;Some 0;Some 0; Some 0;Some 0;Some 0;Some 0;Some 0] in
+  treach true 2 0 ex_progs y /\ length (buf (tb y)) = 4 /\ mbot (tb y) = 0%Z /\ bot (vw (tb y)) = 2%Z.
+Proof. split; [apply treach_trun; constructor | vm_compute; auto]. Qed.
